@@ -106,6 +106,39 @@ fn statement_case<P: G>(capacity: usize) -> Box<dyn Case> {
     })
 }
 
+/// The parameter constructor with commitment generators of every extension degree (the domain does not depend on the degree)
+fn params_degree_case<P: G>() -> Box<dyn Case> {
+    case(format!("{}/RangeParameters::init/degrees", P::NAME), move |_v| {
+        fg::clear_intern();
+        let mut res = CaseResult::new("explored");
+        for d in 1..=6usize {
+            for n in [0usize, 1, 2, 3, 8, 64, 65, 128] {
+                for c in [0usize, 1, 2, 3, 4, 64, 128] {
+                    let expect = is_pow2(n) && n <= 64 && is_pow2(c);
+                    if !P::IS_F && expect && n * c > 1024 {
+                        continue; // thousands of hash-to-group operations per object: the free-module instance covers these
+                    }
+                    match catch(|| P::params(n, c, P::pc_gens(d))) {
+                        Err(p) => res.violate(format!("d={},n={},c={}", d, n, c), format!("constructor panicked: {}", p)),
+                        Ok(r) => {
+                            tally(&mut res, r.is_ok());
+                            if r.is_ok() != expect {
+                                res.violate(format!("d={},n={},c={}", d, n, c), format!("RangeParameters::init({}, {}) with degree-{} generators returned Ok={} but the documented domain says {}", n, c, d, r.is_ok(), expect));
+                            }
+                            if let Ok(p) = r {
+                                if p.extension_degree() as usize != d || p.bit_length() != n || p.max_aggregation_factor() != c {
+                                    res.violate(format!("d={},n={},c={}/getters", d, n, c), "silently adjusted parameters");
+                                }
+                            }
+                        },
+                    }
+                }
+            }
+        }
+        res
+    })
+}
+
 fn witness_case() -> Box<dyn Case> {
     case("RangeWitness::init+CommitmentOpening::r_len", move |_v| {
         let mut res = CaseResult::new("explored");
@@ -129,6 +162,14 @@ fn witness_case() -> Box<dyn Case> {
                     let mut s = vec![base; 4];
                     s[pos] = *dev;
                     shapes.push(s);
+                }
+            }
+        }
+        // every pattern over two neighbouring blinding counts at lengths 4 and 8 (deviations that come in pairs or runs)
+        for base in [1usize, 2, 5] {
+            for len in [4usize, 8] {
+                for bits in 0..(1u32 << len) {
+                    shapes.push((0..len).map(|i| if bits >> i & 1 == 1 { base + 1 } else { base }).collect());
                 }
             }
         }
@@ -272,9 +313,9 @@ fn mask_degree_commit_case<P: G>() -> Box<dyn Case> {
 }
 
 pub fn run(rep: &mut Report) {
-    rep.rule = "complete enumeration: RangeParameters::init bits 0..=130 x capacity 0..=130 (F) and {0,1,2,3,4,63,64,65,128}^2 (Ristretto); \
+    rep.rule = "complete enumeration: RangeParameters::init bits 0..=130 x capacity 0..=130 (F) and {0,1,2,3,4,63,64,65,128}^2 (Ristretto), and a grid of (bits, capacity) with generators of every degree 1..6; \
                 RangeStatement::init commitment count 0..=17 x promise count {count-1,count,count+1} x seed {none, ordinary, 0, 1, -1} x capacity {1,2,4,8,16}; \
-                RangeWitness::init all shapes of length <= 3 over blinding counts 0..=8, one-position deviations at length 4, counts \
+                RangeWitness::init all shapes of length <= 3 over blinding counts 0..=8, one-position deviations at length 4, every pattern over two neighbouring counts at lengths 4 and 8, counts \
                 {255..258,262,512,513}; CommitmentOpening::r_len; ExtendedMask::assign degree x length 0..=8; ExtensionDegree::try_from all \
                 u8 and usize {0..=300, 2^16, 2^32, usize::MAX, values whose low byte is 1..6}; PedersenGens::commit degree x count 0..=8 x value {0,1,9,-1} x zero patterns of the blinding vector; \
                 oracle: independent predicates from the documented domains, getters return what was requested, never a panic"
@@ -291,6 +332,8 @@ pub fn run(rep: &mut Report) {
         cases.push(statement_case::<RistrettoPoint>(cap));
     }
     cases.push(witness_case());
+    cases.push(params_degree_case::<F>());
+    cases.push(params_degree_case::<RistrettoPoint>());
     cases.push(mask_degree_commit_case::<F>());
     cases.push(mask_degree_commit_case::<RistrettoPoint>());
     rep.explore("C17", cases);
